@@ -505,3 +505,29 @@ def r_hermitian_vars(ctx, f, sk: Skeleton, rule="R-DTYPE", allow_real=()):
                f"`{v.name}` is declared {v.ctor.split('.')[-1]} {sorted(k for k in v.attrs if k in ('symmetric', 'PSD', 'psd'))}: real symmetric -- for complex states the "
                "feasible set shrinks and primal/dual no longer agree", v.node)
     return n
+
+
+def r_full_range_families(ctx, f, sk: Skeleton, rule="R-ENUM"):
+    """Indexed variable families (dict / list of cvxpy / picos variables declared in loops) are declared for EVERY index: each
+    declaring loop runs over range(n) or range(0, n); a loop that starts at 1 (or carries a filter) leaves members undeclared --
+    with a defaultdict(cvxpy.Variable) container the missing members silently become fresh scalar variables."""
+    n = 0
+    for v in sk.vars:
+        if not v.indexed or not v.loops:
+            continue
+        bad = None
+        for lp in v.loops:
+            it = lp[1]
+            ifs = getattr(lp[2], "ifs", []) if len(lp) > 2 else []
+            if it[0] == "call" and it[1] == "builtins.range":
+                if len(it[2]) >= 2 and it[2][0] != ("c", 0):
+                    bad = (it, "starts at " + show(it[2][0]))
+                if len(it[2]) == 3 and it[2][2] != ("c", 1):
+                    bad = (it, "has a step")
+            if ifs:
+                bad = (it, "is filtered")
+        n += 1
+        ctx.ob(rule, f, f"variable family `{v.name}` is declared for every index", bad is None,
+               "declaring loops run over full ranges" if bad is None else
+               f"the declaring loop `{show(bad[0])[:50]}` {bad[1]}: some members of `{v.name}` are never declared (a defaultdict container then fabricates unconstrained scalar variables for them)", v.node)
+    return n
